@@ -121,7 +121,8 @@ def helper_dispatch(chk, db, rule):
                 why.append('event order %s, expected GetArgs, Call, SendReturn' % names)
                 continue
             call, send = ev[1], ev[2]
-            if '&l:args' not in [repr(a) for a in call.args]:
+            tuple_arg = repr(ev[0].args[0]) if ev[0].args else None      # &l:<tuple local> handed to GetArgs
+            if tuple_arg is None or not tuple_arg.startswith('&l:') or tuple_arg not in [repr(a) for a in call.args]:
                 why.append('handler is not called with the decoded argument tuple')
             if 'Call(' not in repr(send.args[0]):
                 why.append('SendReturn sends %r, not the handler result' % (send.args[0],))
